@@ -130,7 +130,7 @@ EXPECTED_BRANCHES += ['mem/{}/{}'.format(c, o) for c in (
     'call/{}/{}'.format(c, o) for c in ('complex', 'real', 'integers') for o in 'tf']
 # round 5: API strata (oracle only)
 EXPECTED_BRANCHES += [
-    'approxeq/same-ndim/t', 'approxeq/same-ndim/f', 'approxeq/other-ndim/e', 'approxeq/other-ndim/f',
+    'approxeq/same-ndim/t', 'approxeq/same-ndim/f', 'approxeq/other-ndim/f',
     'api/discr-attributes',
     'api/element-astype/DiscretizedSpace',
     'api/element-astype/NumpyTensorSpace',
@@ -3244,14 +3244,17 @@ def run_set_membership(ctx):
                 ctx.case(('approxeq', A.ndim, B.ndim, atol, r))
                 ctx.hit('approxeq/{}/{}'.format('same-ndim' if same_dim else 'other-ndim', r[0]))
                 rep = {'kind': 'approxeq', 'space': wa, 'x': wb, 'option': 'atol={}'.format(atol)}
-                if same_dim:
-                    # oracle (independent of the model): end points within atol; atol = 0 is ==
-                    want = all(abs(float(a) - float(b)) <= atol
-                               for a, b in zip(list(A.min_pt) + list(A.max_pt),
-                                               list(B.min_pt) + list(B.max_pt)))
+                if True:
+                    # oracle (independent of the model): same dimension and end points within
+                    # atol (different dimension: never approximately equal, C20-F18 repaired in
+                    # /repo b059927); atol = 0 is ==
+                    want = same_dim and all(abs(float(a) - float(b)) <= atol
+                                            for a, b in zip(list(A.min_pt) + list(A.max_pt),
+                                                            list(B.min_pt) + list(B.max_pt)))
                     eq0 = (A == B) if atol == 0.0 else None
                     if r != ('t' if want else 'f') or (eq0 is not None and (r == 't') != bool(eq0)):
-                        viol(ctx, 'approx-equals-wrong IntervalProd',
+                        viol(ctx, 'approx-equals-wrong IntervalProd{}'.format(
+                            '' if same_dim else ' other-ndim'),
                              '{!r}.approx_equals({!r}, {}) gives {} (end points within atol: {}, '
                              '==: {})'.format(A, B, atol, r, want, eq0), rep)
                 lines.append('approxeq A={} B={} atol={}'.format(wa, wb, fs(atol)))
